@@ -21,18 +21,18 @@ import (
 // state machine (awaiting sets per node, challenges per node and address, who may seal what).
 
 type refContract struct {
-	trx      transaction.Transaction
-	savedAt  map[int]int64 // node -> time it became awaiting there (by propose or gossip)
-	removed  map[int]bool
-	mayBeSealed bool // a valid confirm or a receiver-signed reject was issued for it
+	trx              transaction.Transaction
+	savedAt          map[int]int64 // node -> time it became awaiting there (by propose or gossip)
+	removed          map[int]bool
+	mayBeSealed      bool // a valid confirm or a receiver-signed reject was issued for it
 	issuer, receiver int
 }
 
 type refNotary struct {
-	contracts  map[Hash]*refContract
-	order      []Hash
-	transfers  map[Hash]bool // pure transfers validly proposed
-	challenge  map[string][]byte // node|address -> blob
+	contracts   map[Hash]*refContract
+	order       []Hash
+	transfers   map[Hash]bool     // pure transfers validly proposed
+	challenge   map[string][]byte // node|address -> blob
 	challengeAt map[string]int64
 }
 
